@@ -27,6 +27,7 @@ LEVEL_TEXT = ("Bounded history contract on the real Pipeline.map / create_learne
               "building the mask "
               "(_mask_fixed_axes: numpy fancy indexing) and the adaptive learners are outside the proof rung, so the "
               "property itself is decided on the bounded rung: 'exploration'.")
+LEVEL_TEXT += (" Also proved: _reduced_axes (41 obligations; nested loops over a set and a list with a defaultdict(set) accumulator): an array of the pipeline's MapSpecs has an entry iff some function takes it whole or partially, and the entry holds exactly the axes those functions reduce - all named axes for a function that takes it whole, the axes at its ':' positions for a partial reduction.")
 LEVEL_NOTE = ("Bounds: programs of 1..3 functions, rank<=2, axis sizes 1..3, storage file_array / dict. Trusted: "
               "reference denotation (incl. the reference notion of a reduced axis, from the statement), adaptive 1.5.")
 TECHNIQUE = ("bounded history-contract checking of partial runs against the reference denotation; work-list function "
@@ -56,6 +57,9 @@ def proof_items():
             # ... or it takes some of its axes whole through ':' - those axes (by name) are the reduced ones
             ProofItem(misc.is_parameter_partially_reduced, gen=misc.ipr_gen),
             ProofItem(misc.get_partially_reduced_axes, gen=misc.pra_gen),
+            # ... collected over the pipeline: per array exactly the axes that some function reduces
+            ProofItem(misc.reduced_axes, gen=misc.ra_gen,
+                      registry=lambda: {**{c.short: c for c in misc.REDUCED}, **{c.name: c for c in misc.REDUCED}}),
             # element-scope functions: one learner per *selected* flat index (not per position)
             ProofItem(adaptive.split_sequence_learner, gen=adaptive.gen, call=adaptive.call)]
 
